@@ -98,13 +98,18 @@ async def gather_excs(
         Optional specific type of exceptions to filter on and yield
     """
     futs = [aio.ensure_future(aw) for aw in aws]
-    results = await aio.gather(*futs, return_exceptions=True)
-    for fut, res in zip(futs, results):
+    await aio.gather(*futs, return_exceptions=True)
+    for fut in futs:
         # An exception instance can also be the (successful) result of
-        # an awaitable: only report the ones which were really raised
-        raised = fut.cancelled() or fut.exception() is not None
-        if raised and isinstance(res, only):
-            yield res
+        # an awaitable: only report the ones which were really raised.
+        # gather would also replace any kind of CancelledError with a
+        # new plain one, so get the real exception from the future.
+        try:
+            exc = fut.exception()
+        except aio.CancelledError as cancelled:
+            exc = cancelled
+        if exc is not None and isinstance(exc, only):
+            yield exc  # type: ignore
 
 
 async def raise_first_exc(aws: Iterable[Awaitable[Any]],
